@@ -26,6 +26,7 @@ type c17op struct {
 	Table    [][]uint32 `json:"table"` // after the op: [table key, instance id, token, key identity] in table order
 	Keys     int        `json:"keys"`  // number of keys of the instance table (empty entries included)
 	Now      int64      `json:"now"`
+	Stuck    int        `json:"stuck,omitempty"` // expiry routines that did not finish although their instant had passed
 }
 
 type c17case struct {
@@ -58,6 +59,7 @@ func runC17(c *c17case) {
 	base := time.Now().Add(-1000 * time.Hour) // virtual instant 0; every timer of the implementation is already due
 	vnow := c.T0
 	var live []*liveInst
+	stuck := 0
 	seq := uint32(10)
 	dump := func(o *c17op) {
 		objs := v.InstanceObjs()
@@ -78,6 +80,7 @@ func runC17(c *c17case) {
 			}
 		}
 		o.Now = vnow
+		o.Stuck = stuck
 	}
 	sweep := func() {
 		// timers whose instant has passed fire, in table order
@@ -98,7 +101,13 @@ func runC17(c *c17case) {
 			}
 		}
 		for _, li := range dueNow {
-			v.RunExpiration(li.v)
+			done := make(chan struct{})
+			go func(li *liveInst) { v.RunExpiration(li.v); close(done) }(li)
+			select {
+			case <-done:
+			case <-time.After(400 * time.Millisecond):
+				stuck++ // its instant has passed and the routine still waits
+			}
 		}
 	}
 	for i := range c.Ops {
